@@ -605,6 +605,77 @@ fn find_sub(h: &[u8], n: &[u8]) -> Option<usize> { h.windows(n.len()).position(|
 
 // ---------------------------------------------------------------- main
 
+
+// ---------------------------------------------------------------- diagnosis of accepted bit flips (`--diagnose 1`)
+
+/// The chain of DER elements (tag, offset, header length, content length) that contain byte `off`.
+fn der_path(buf: &[u8], off: usize) -> Vec<String> {
+    fn walk(buf: &[u8], base: usize, start: usize, end: usize, off: usize, path: &mut Vec<String>) {
+        let mut p = start;
+        let mut idx = 0;
+        while p < end {
+            let tag = buf[p];
+            let (len, hl) = { let l0 = buf[p + 1] as usize; if l0 < 0x80 { (l0, 2) } else { let n = l0 & 0x7f; let mut l = 0usize; for i in 0..n { l = (l << 8) | buf[p + 2 + i] as usize; } (l, 2 + n) } };
+            let (cs, ce) = (p + hl, p + hl + len);
+            if off >= p && off < ce {
+                let name = match tag { 0x30 => "SEQUENCE".to_string(), 0x31 => "SET".to_string(), 0x02 => "INTEGER".into(), 0x03 => "BIT STRING".into(), 0x04 => "OCTET STRING".into(),
+                    0x05 => "NULL".into(), 0x06 => "OID".into(), 0x0c => "UTF8String".into(), 0x13 => "PrintableString".into(), 0x17 => "UTCTime".into(), 0x18 => "GeneralizedTime".into(),
+                    t if t & 0xc0 == 0x80 => format!("[{}]{}", t & 0x1f, if t & 0x20 != 0 { " constructed" } else { "" }), t => format!("tag 0x{t:02x}") };
+                let part = if off < cs { if off == p { "TAG octet".to_string() } else { "LENGTH octets".to_string() } } else { format!("content octet {}", off - cs) };
+                path.push(format!("#{idx} {name} @{} (header {hl}, length {len}): {part}", p + base));
+                if off >= cs && tag & 0x20 != 0 { walk(buf, base, cs, ce, off, path); }
+                else if off >= cs && tag == 0x03 && off == cs { path.push("= the 'unused bits' octet of the BIT STRING".into()); }
+                else if off >= cs && (tag == 0x04 || tag == 0x03) && len > 4 && buf[cs + (tag == 0x03) as usize] == 0x30 {
+                    // an OCTET/BIT STRING wrapping DER (extension values, public keys)
+                    let inner = cs + (tag == 0x03) as usize;
+                    if off >= inner { walk(buf, base, inner, ce, off, path); }
+                }
+                return;
+            }
+            p = ce; idx += 1;
+        }
+    }
+    let mut path = Vec::new();
+    walk(buf, 0, 0, buf.len(), off, &mut path);
+    path
+}
+
+/// Every single-bit flip of one valid publication message that the real code still accepts: where it is, what the
+/// flipped bytes decode to, whether validation passes, what `RepositoryManager::rfc8181` answers.
+fn diagnose(args: &Args, dir: &std::path::Path) {
+    let mut opts = SysOpts::new(dir);
+    opts.mem_seed = 5200 + args.seed;
+    let sys = Sys::open(opts);
+    sys.bootstrap().expect("bootstrap");
+    let idc = sys.krill.signer().create_self_signed_id_cert().expect("id cert");
+    let kid = idc.public_key().key_identifier();
+    let req = PublisherRequest::new(Base64::from_content(idc.to_bytes().as_ref()), publisher_handle("p1"), None);
+    sys.krill.repo_manager().create_publisher(req, &sys.actor).expect("publisher p1");
+    let mut d = PublishDelta::empty();
+    d.add_publish(Publish::new(None, uri::Rsync::from_str(&format!("{RSYNC_JAIL}p1/sweep.cer")).unwrap(), Base64::from_content(b"sweep-object")));
+    let constructed = publication::Message::delta(d);
+    let bytes = sys.krill.signer().create_rfc8181_cms(constructed.clone(), &kid).expect("sign").to_bytes().to_vec();
+    let untouched = PublicationCms::decode(&bytes).expect("decodes").into_message();
+    println!("message: {} bytes; constructed == decode(untouched bytes): {}", bytes.len(), constructed == untouched);
+    if constructed != untouched { println!("  constructed: {constructed:?}\n  decoded    : {untouched:?}"); }
+    let mut n = 0;
+    for bit in 0..bytes.len() * 8 {
+        let mut b = bytes.clone();
+        b[bit / 8] ^= 1 << (bit % 8);
+        let Ok(cms) = PublicationCms::decode(&b) else { continue };
+        if cms.validate(idc.public_key()).is_err() { continue }
+        n += 1;
+        let m = cms.into_message();
+        println!("bit {bit} = byte {} (0x{:02x} -> 0x{:02x}), mask 0x{:02x}: decodes, validates under the publisher's key", bit / 8, bytes[bit / 8], b[bit / 8], 1u8 << (bit % 8));
+        for l in der_path(&bytes, bit / 8) { println!("    {l}"); }
+        println!("    decoded == decode(untouched): {}; decoded == constructed: {}; to_xml_bytes equal to untouched: {}", m == untouched, m == constructed, m.to_xml_bytes() == untouched.to_xml_bytes());
+        let r = sys.krill.repo_manager().rfc8181(publisher_handle("p1"), Bytes::from(b), &sys.krill);
+        let reply = r.as_ref().ok().and_then(|r| PublicationCms::decode(r.as_ref()).ok()).map(|c| format!("{:?}", c.into_message().as_reply()));
+        println!("    rfc8181: {}", match &r { Ok(_) => format!("Ok, reply {}", reply.unwrap_or_default()), Err(e) => format!("Err({e})") });
+    }
+    println!("{n} accepted single-bit flips out of {}", bytes.len() * 8);
+}
+
 /// What the scenario collects besides the cases.
 #[derive(Default)]
 struct Extra { flip_dist: BTreeMap<String, u64>, accepted_flips: Vec<Value>, ua: u64, local8181_probe: Value }
@@ -618,6 +689,7 @@ fn main() {
     std::panic::set_hook(Box::new(|info| { if let Ok(mut g) = LAST_PANIC.lock() { *g = info.to_string(); } }));
     let dir = args.out.join("sys");
     let _ = std::fs::remove_dir_all(&dir);
+    if args.get_u64("diagnose", 0) == 1 { diagnose(&args, &dir); let _ = std::fs::remove_dir_all(&dir); return }
     let footer = EVALS.iter().map(|e| format!("Eval vm_compute in (failing {e} base_index cases).")).collect::<Vec<_>>().join("\n");
     let mut out = Out { w: CaseWriter::new(&args.out, HEADER, "list case", &footer, 60), lines: Vec::new(), dist: BTreeMap::new(),
         outcome_dist: BTreeMap::new(), distinct: BTreeSet::new(), samples: Vec::new(), impl_failures: Vec::new() };
